@@ -14,6 +14,19 @@ func (x *Exec) compOf(h *Heap, name string, s Sort) *Term {
 	if t, ok := h.comps[name]; ok {
 		return t
 	}
+	if tag, ok := h.pending[name]; ok {
+		t := x.w.declConst("H"+tag+"!"+name, s)
+		h.comps[name] = t
+		x.compSorts[name] = s
+		x.writes[name] = true
+		if x.unit != nil && x.unit.Con != nil && !x.unit.Con.ModifiesAll && x.modLocs != nil && !strings.HasPrefix(name, "G!") {
+			// as for components havocked with a known sort: what the unit's modifies clause does not
+			// mention keeps its entry contents (a free loop invariant, checked at back edges and returns);
+			// the fact is kept with the heap and joins the path condition at the next obligation
+			h.facts = append(h.facts, x.frameGoal(name, t))
+		}
+		return t
+	}
 	if h.epoch != "" && !(strings.HasPrefix(name, "G!") && x.eng.globalIsConstant(name)) {
 		t := x.w.declConst("H"+h.epoch+"!"+name, s)
 		h.comps[name] = t
@@ -259,7 +272,11 @@ func (x *Exec) ptrTerm(p *Ptr) *Term {
 	}
 	if p.Elem != nil && len(p.Path) == 0 {
 		// interior pointer to a slice element: encoded as an opaque non-nil reference
-		x.w.declFun("elemptr", "(Int "+string(x.w.IS)+") Int")
+		if _, ok := x.w.funs["elemptr"]; !ok {
+			x.w.declFun("elemptr", "(Int "+string(x.w.IS)+") Int")
+			a, ix := Atom("a", SInt), Atom("ix", x.w.IS)
+			x.w.axioms = append(x.w.axioms, Forall([]*Term{a, ix}, Not(Eq(App("elemptr", SInt, a, ix), IntLit(0, SInt))), []*Term{App("elemptr", SInt, a, ix)}))
+		}
 		return App("elemptr", SInt, p.Ref, p.Elem)
 	}
 	if p.Ref != nil && p.Elem == nil && len(p.Path) > 0 {
